@@ -2,9 +2,9 @@ ID = "C02"
 LEVEL = "model_checking"
 MIRSYM = "C02"
 BOUNDS = ("handle_rpc_call batch branch: arrays of 0..2 (quick) / 0..3 (thorough) elements, every outcome of the three parsers per element, batch config Disabled / Limit(any u32) / "
-          "Unlimited; RpcService::batch: all batches over {call, notification, invalid} up to length 2 (quick) / 3 (thorough), every append outcome; the WebSocket reply decision for every response kind; the batch setting through every builder step; the append / builder kernels for entries of any kind")
+          "Unlimited; RpcService::batch: all batches over {call, notification, invalid} up to length 2 (quick) / 3 (thorough), every append outcome; the WebSocket reply decision for every response kind; the batch setting through every builder step; the append / builder kernels for entries of any kind; every path of BatchEntryErr::into_parts")
 EXPLANATION = ("Symbolic execution of the rustc MIR of server::handle_rpc_call (batch branch) and middleware::rpc::RpcService::batch: z3 decides the config gate, the length limit "
-               "boundary for every u32, per-entry classification, and that exactly one response is appended per call / invalid entry and none for notifications. A notification-only batch gets no frame over WebSocket; the configured batch setting survives every builder step.")
+               "boundary for every u32, per-entry classification, and that exactly one response is appended per call / invalid entry and none for notifications. A notification-only batch gets no frame over WebSocket; the configured batch setting survives every builder step. The parts an invalid entry's -32600 reply is written from are the error object and the very id the entry error was built with (into_parts never looks at the id's kind).")
 TRUSTED = ["rustc MIR dump", "z3 / cvc5", "serde_json / serde-derive parsers (uninterpreted outcomes)", "BatchResponseBuilder accounting (C08)"]
 OUTSIDE = ["equality of a batch entry's reply with the same call sent alone (same RpcService::call invocation; handlers not re-run)",
            "a subscribe call inside a batch is answered both inside the array and directly (upstream TODO #1052) - observation"]
